@@ -859,7 +859,7 @@ Proof.
     assert (H : forall l acc, cn_clients (fst (fold_left f l acc)) = cn_clients (fst acc) /\
                               cn_dead (fst (fold_left f l acc)) = cn_dead (fst acc)).
     { induction l as [|nm l IH]; intros acc; cbn [fold_left]; auto.
-      destruct (IH (f acc nm)) as [-> ->]. destruct acc as [x0 [i|]]; cbn [f fst]; auto.
+      destruct (IH (f acc nm)) as [-> ->]. destruct acc as [x0 r0]; cbn [f fst]; auto.
       destruct (db_id_of (cn_node x0) nm); split; reflexivity. }
     apply (H db_names (x, Some id)).
 Qed.
